@@ -11,6 +11,7 @@ import (
 	"runtime"
 	"strings"
 	"sync"
+	"sync/atomic"
 	"time"
 )
 
@@ -208,6 +209,9 @@ func runSolver(ctx context.Context, s solverSpec, file string, timeoutMs int, in
 // Discharge runs all obligations of vc, each as its own query sliced to its cone of influence:
 // first z3-new alone with the quick time limit, then (if not discharged) the three solvers raced with
 // the slow limit. Every solver process runs under a hard wall-clock limit.
+// slowFailBudget: after this many obligations of one unit failed the raced slow path the others are not raced any more
+const slowFailBudget = 4
+
 func (vc *VC) Discharge(obls []*Obligation, workDir string, quickMs, slowMs int) error {
 	if len(obls) == 0 {
 		return nil
@@ -225,8 +229,19 @@ func (vc *VC) Discharge(obls []*Obligation, workDir string, quickMs, slowMs int)
 		}
 		mu.Unlock()
 	}
+	slowSem := make(chan struct{}, slowFailBudget)
 	// one obligation, standalone: deterministic first pass, then the raced slow path
+	unitGate := make(chan struct{}, 16)
 	single := func(i int, o *Obligation) {
+		// at most 16 obligations of one unit are in work at a time (as many as there are solver slots), so that the
+		// ones still waiting see the failures of the ones before them
+		unitGate <- struct{}{}
+		defer func() { <-unitGate }()
+		if !o.Cover && atomic.LoadInt32(&vc.slowFails) >= slowFailBudget {
+			o.Result, o.Solver = "unknown", "not attempted: unit already has failing obligations"
+			o.Model = "not attempted: " + fmt.Sprint(slowFailBudget) + " obligations of this unit had already failed on every solver"
+			return
+		}
 		sf := fmt.Sprintf("%s.obl%d.smt2", base, i)
 		if err := os.WriteFile(sf, []byte(vc.Standalone(o, !o.Cover)), 0o644); err != nil {
 			setErr(err)
@@ -305,6 +320,18 @@ func (vc *VC) Discharge(obls []*Obligation, workDir string, quickMs, slowMs int)
 		if vc.knownOpen[o.Name] {
 			return // a recorded finding: one bounded attempt is enough to see that it still fails
 		}
+		// a unit that already has several obligations nobody could discharge is failing whatever the rest says: the
+		// remaining undischarged ones keep the verdict of the first pass instead of costing a raced slow attempt each
+		// (a changed function can raise hundreds of them; the run's verdict for the property is the same)
+		slowSem <- struct{}{} // at most slowFailBudget slow attempts of one unit at a time, so that the budget can bite
+		defer func() { <-slowSem }()
+		if atomic.LoadInt32(&vc.slowFails) >= slowFailBudget {
+			o.Solver += " (slow path skipped: unit already has failing obligations)"
+			if o.Model == "" {
+				o.Model = "not attempted on the slow path: " + fmt.Sprint(slowFailBudget) + " obligations of this unit had already failed it"
+			}
+			return
+		}
 		rr := raceSolvers(sf, slowMs)
 		if rr.err != nil {
 			setErr(fmt.Errorf("%s obligation %s: %v (script %s)", vc.key, o.Name, rr.err, sf))
@@ -312,6 +339,7 @@ func (vc *VC) Discharge(obls []*Obligation, workDir string, quickMs, slowMs int)
 		}
 		o.Result, o.Solver, o.Ms = rr.result, rr.solver, o.Ms+rr.dur.Milliseconds()
 		if rr.result != "unsat" {
+			atomic.AddInt32(&vc.slowFails, 1)
 			o.Model = rr.raw
 		} else {
 			os.Remove(sf)
